@@ -1,8 +1,8 @@
 (* C09 - generic lemmas: the loop rule for [while], bounds-checked accesses,
    row-major index arithmetic, the "sequential writer" invariant shared by
    the pattern routines. *)
-From Coq Require Import List Arith Bool Lia.
-From LibaV Require Import C09.LinalgDefs.
+From Coq Require Import List Arith Bool Lia NArith.
+From LibaV Require Import C09.LinalgDefs C09.LinalgSpec.
 Import ListNotations.
 
 (* ------------------------------------------------------------------ *)
@@ -68,6 +68,60 @@ Lemma idx_div_lt m n k : k < m * n -> k / n < m.
 Proof.
   intros H. destruct n as [|n]; [lia|].
   apply Nat.div_lt_upper_bound; lia.
+Qed.
+
+(* ------------------------------------------------------------------ *)
+(* integer widths: none of the C's offset computations wraps when the  *)
+(* dimensions are a_uint values                                         *)
+
+Lemma wrap64_id x : (N.of_nat x < 18446744073709551616)%N -> wrap64 x = x.
+Proof.
+  intros H. unfold wrap64. rewrite N.mod_small by exact H. apply Nat2N.id.
+Qed.
+
+Lemma wrap32_id x : U32 x -> wrap32 x = x.
+Proof.
+  intros H. unfold wrap32. rewrite N.mod_small by exact H. apply Nat2N.id.
+Qed.
+
+(* (a_size)a * b with a <= 2^32 (a_uint, or an a_uint plus one) and b an a_uint *)
+Lemma sz_mul_id a b : (N.of_nat a <= 4294967296)%N -> U32 b -> sz_mul a b = a * b.
+Proof.
+  unfold U32, sz_mul. intros Ha Hb. apply wrap64_id. rewrite Nat2N.inj_mul.
+  apply N.le_lt_trans with (4294967296 * N.of_nat b)%N.
+  - apply N.mul_le_mono_r. exact Ha.
+  - change 18446744073709551616%N with (4294967296 * 4294967296)%N.
+    apply N.mul_lt_mono_pos_l; [reflexivity|exact Hb].
+Qed.
+
+Lemma U32_le a : U32 a -> (N.of_nat a <= 4294967296)%N.
+Proof. unfold U32. intros. apply N.lt_le_incl. assumption. Qed.
+
+Lemma U32_mono a b : a <= b -> U32 b -> U32 a.
+Proof. unfold U32. intros H Hb. apply N.le_lt_trans with (N.of_nat b); [lia|exact Hb]. Qed.
+
+(* (a_size)n + 1 *)
+Lemma sz_succ_id n : U32 n -> sz_add n 1 = n + 1 /\ (N.of_nat (n + 1) <= 4294967296)%N.
+Proof.
+  unfold U32, sz_add. intros H. split.
+  - apply wrap64_id. lia.
+  - lia.
+Qed.
+
+(* nr + c, mc + r: an a_size sum that stays below the (a_size) product of two a_uint values *)
+Lemma sz_add_id a b m n : a + b < m * n -> U32 m -> U32 n -> sz_add a b = a + b.
+Proof.
+  intros H Hm Hn. unfold sz_add. apply wrap64_id.
+  apply N.lt_trans with (N.of_nat (m * n)); [lia|].
+  rewrite Nat2N.inj_mul. unfold U32 in *.
+  change 18446744073709551616%N with (4294967296 * 4294967296)%N.
+  apply N.mul_lt_mono; assumption.
+Qed.
+
+(* ++c / c = r + 1 under a guard c < n, n an a_uint *)
+Lemma u32_inc_id c n : c < n -> U32 n -> u32_add c 1 = c + 1.
+Proof.
+  unfold U32, u32_add. intros H Hn. apply wrap32_id. unfold U32. lia.
 Qed.
 
 (* a function of (row, column) seen on the linear index *)
